@@ -6,15 +6,57 @@ BASELINE = json.load(open('/root/.vp/BASELINE.json'))['cmd'] if os.path.exists('
 
 # id: (engine, technique, level text, level note, design ref)
 CHECKS = {
+ 'C01': ('strspace', 'bounded-exhaustive enumeration of input strings (all single byte/element edits of systematic seeds, pairs of element edits, language enumerations, header matrix) run on all four parsers against a reference recogniser',
+         'Every string of the enumerated neighbourhoods and languages gets the verdict of the reference grammar from each parser, with the nil/non-nil conventions and without panic. Exhaustive within the stated edit bounds; thorough enumerates the whole v2 language, all 2^22 v3 metric sets and all 2^21 v4 optional subsets.',
+         'Trusted: reference grammar mc/spec/grammar.go (two formulations cross-checked on every string). Strings further than the edit bound from every seed are not explored.', '5 C01, 4 E1'),
  'C02': ('objspace', 'explicit-state enumeration of object states (full products of free metrics) on the implementation, reference serialiser as oracle',
          'Every object state of the swept sub-spaces (v2: all 139,968,000 in thorough; v3/v4: all t-wise subsets, storage-order windows and presence subsets over 3 backgrounds) is built through the real Set, serialised and re-parsed; result must be == and Get-equal. Exhaustive for v2, bounded-exhaustive for v3/v4.',
          'Trusted: reference tables/serialiser in mc/spec; reachability of only canonical states relies on the closure check of C07.', '5 C02, 4 E2'),
+ 'C03': ('scorespace', 'exhaustive enumeration of all 2 x 16,588,800 effective classes against an exact rational/integer model',
+         'BaseScore, TemporalScore, EnvironmentalScore (and Impact/Exploitability) of every effective class of v3.0 and v3.1 equal the exact evaluation of the specification equations. Complete for effective classes; lifted to all representations by C10.',
+         'Trusted: weights/equations transcribed into mc/spec/score3.go; big.Rat arithmetic.', '5 C03, 4 E3'),
  'C04': ('scorespace', 'exhaustive enumeration of all 15,116,544 effective classes against an exact integer model',
          'Score() of every effective class (all 270 MacroVectors) equals the exact-integer evaluation of the specification algorithm with derived maxima/depths. Complete for effective classes; lifted to all representations by C10.',
          'Trusted: frozen MacroVector table (independent transcription), EQ predicates transcribed from the specification.', '5 C04, 4 E3'),
+ 'C05': ('scorespace', 'complete enumeration of all 139,968,000 v2.0 assignments against an exact rational model with tie sets',
+         'All three scores and both sub-scores of every v2.0 metric assignment conform to the guide equations (both neighbours allowed at exact half-way points, propagated through the cascaded roundings). Complete.',
+         'Trusted: weights/equations transcribed into mc/spec/score2.go.', '5 C05, 4 E3'),
+ 'C06': ('strspace', 'bounded-exhaustive enumeration of accepted strings; Get compared with the reference parser',
+         'For every accepted string of the E1 spaces (whole v2 language in thorough) every Get equals what the reference parser extracted.',
+         'Trusted: reference parser; v3 orders / v4 value combinations outside the enumerated families are not explored.', '5 C06, 4 E1'),
  'C07': ('objspace', 'explicit-state reachability closure: every (state, Set) transition compared with the canonical successor',
          'For every state of the sweeps and every Set transition (legal values, illegal values, unknown abbreviations) the successor is == the canonical object of the model successor; failed Set changes nothing; plus BFS over Set histories from the zero value and parsed objects.',
          'Trusted: array model of Set/Get in mc/spec; v3/v4 bounded to t-wise + windows + presence subsets.', '5 C07, 4 E2'),
+ 'C08': ('strspace', 'bounded-exhaustive enumeration of accepted strings; Vector() compared with the reference canonical serialiser',
+         'For every accepted string of the E1 spaces ParseVector(s).Vector() is the reference canonical spelling and parse-then-serialise is idempotent.',
+         'Trusted: reference canonical serialiser.', '5 C08, 4 E1'),
+ 'C09': ('objspace', 'exhaustive enumeration of an abbreviation x value alphabet on several states + state invariants on all swept states',
+         'Get/Set accept exactly table members over an alphabet of ~thousands of abbreviations x values (all edit-distance-1 strings); every swept state is well formed (legal Get, canonical Vector, scoring without panic).',
+         'Trusted: tables in mc/spec/tables.go. Strings further than one byte edit from legal ones are represented by variants only.', '5 C09, 4 E2'),
+ 'C10': ('scorespace', 'deviation-bounded exhaustive lifting: every effective class x every alternative representation within the bound, against the exact models',
+         'Scores depend on overridable metrics only through effective values, defaults score as the specification says, supplemental metrics are ignored: checked for every class and every representation with <= k deviations (k=1 quick, k=2 thorough) plus all-overridden patterns.',
+         'Trusted: exact models of C03/C04. Representations with more deviations than the bound are covered only by the all-overridden patterns.', '5 C10, 4 E3'),
+ 'C11': ('scorespace', 'exhaustive enumeration of classes/assignments; format predicate on every returned score',
+         'Every score returned on the complete v2 space, all v3 classes and all v4 classes (canonical and overridden representations) is finite, exactly k/10, in range, accepted by Rating; no panic.',
+         'Representation independence (C10) carries the result to the remaining objects.', '5 C11, 4 E3'),
+ 'C12': ('scorespace', 'exhaustive exploration of the one-metric neighbourhood graph on the implementation\'s own score tables',
+         'For every effective class and every strictly more severe value of every metric the score does not decrease (v4 Score; v3.1 three scores; v3.0 and v2 base and temporal). Complete on effective classes; model independent.',
+         'Trusted: severity orders from the specifications.', '5 C12, 4 E3'),
+ 'C13': ('strspace', 'bounded-exhaustive enumeration of strings against all four parsers + Vector() of swept objects against the other parsers',
+         'No string of the E1 spaces (incl. the header matrix) is accepted by two parsers; Vector() of every swept object is rejected by the three other parsers.',
+         'A doubly accepted string would have to lie inside the explored neighbourhoods.', '5 C13, 4 E1'),
+ 'C15': ('numspace', 'exhaustive enumeration of all 2^32 float32 values + ulp neighbourhoods of every threshold, three packages',
+         'Rating equals the interval table on every float32 value, every float64 within 4096 ulps of a threshold, grids and specials, identically in the three packages.',
+         'float64 values neither float32-representable nor near a threshold are covered by grids only.', '5 C15, 4 E5'),
+ 'C16': ('objspace', 'exhaustive enumeration of threat/environmental assignments (full product in thorough) with an odometer on the implementation',
+         'Nomenclature equals the group-presence definition on every presence subset and (thorough) on the full product of the 15 threat+environmental metrics x 3 backgrounds.',
+         'Objects are built through Set (C07).', '5 C16, 4 E2'),
+ 'C17': ('numspace', 'exhaustive per-call allocation measurement over all presence subsets / metrics / values in dedicated worker processes',
+         'Mallocs delta of single calls is within the documented budget for every presence subset of optional metrics, every metric/value for Get/Set, every scoring method, Rating and Nomenclature.',
+         'Measured on the toolchain in the image (go1.23.5 amd64); runtime Mallocs counter.', '5 C17, 4 E5'),
+ 'C18': ('strspace', 'bounded-exhaustive enumeration of single-defect strings classified by a reference automaton; errors.Is/As on the result',
+         'Every rejected string of the E1 spaces that has exactly one well-defined defect yields the documented error value (incl. the named abbreviation); Get/Set error values on the full C09 alphabets. One known finding (v2, element after a complete environmental group).',
+         'Trusted: repair-based classifier mc/spec/classify.go; ambiguous strings are not asserted.', '5 C18, 4 E1'),
 }
 NOT_YET = {}
 
@@ -65,6 +107,8 @@ def main():
 
 ENGINES = [
  {'name': 'objspace', 'path': 'mc/engine/objspace.go', 'serves_properties': ['C02', 'C07', 'C09', 'C16'], 'kind_free_text': 'explicit-state exploration of the packed objects as a transition system (states = metric assignments, transitions = Set/ParseVector), on the implementation, array model as oracle'},
+ {'name': 'strspace', 'path': 'mc/engine/strspace.go', 'serves_properties': ['C01', 'C06', 'C08', 'C13', 'C18'], 'kind_free_text': 'the four parsers as state machines: bounded-exhaustive enumeration of strings (edit neighbourhoods of seeds, language enumerations, header matrix) judged by a reference grammar / automaton'},
+ {'name': 'numspace', 'path': 'mc/engine/props_c15_c16.go', 'serves_properties': ['C15', 'C17'], 'kind_free_text': 'exhaustive float32 / ulp sweeps for Rating; exhaustive per-call allocation measurement in worker processes'},
  {'name': 'scorespace', 'path': 'mc/engine/score4.go', 'serves_properties': ['C03', 'C04', 'C05', 'C10', 'C11', 'C12'], 'kind_free_text': 'exhaustive enumeration of effective metric classes against exact (integer/rational) executable specifications; deviation-bounded lifting to representations'},
 ]
 if __name__ == '__main__':
